@@ -1,6 +1,7 @@
 ----------------------------- MODULE MC_AnyFuncs -----------------------------
 (* Caller-supplied functions for the types arbitrary JSON decodes into (bool,  *)
-(* string, float64, map[string]any, []any), applied to values held behind an   *)
+(* string, float64, map[string]any, []any) and for other types an `any` may    *)
+(* hold when marshaling (int, int64, []string), applied to values held behind an *)
 (* `any` (C17).  A joined function list is a sequence of target types; the     *)
 (* first function whose type is the dynamic type of the value represents it -  *)
 (* wherever in the list it stands and whatever the other functions target.     *)
